@@ -838,6 +838,18 @@ func TestVerifC20(t *testing.T) {
 		}
 		c20HistoryCase(t, out, pr, dir, "scripted-one-file", [][]c20Line{sf1}, 0,
 			[]c20Step{c20SStart(), c20SRead(3), c20SSeek(-1), c20SRead(2), c20SSeek(-10 - 1), c20SReadAll()}, nil)
+		// round 8: seekRecord (the search-level entry: seek, then step over the
+		// found record) to EVERY record, on files whose stamps lie before the wall
+		// clock, all after it, only the newest three after it, rotated file before
+		// and current file after it
+		for i, fs := range [][][]c20Line{two, c20ToFuture(two, 0, 0), c20ToFuture(two, 1, len(sf1)-3), c20ToFuture(two, 1, 0),
+			c20ToFuture([][]c20Line{sf1}, 0, 0), c20ToFuture([][]c20Line{sf0[:3]}, 0, 0)} {
+			n := 0
+			for _, f := range fs {
+				n += len(f)
+			}
+			c20HistoryCase(t, out, pr, dir, "seek-record-"+strconv.Itoa(i), fs, 0, c20SeekRecScript(n), nil)
+		}
 		// long random ones over 0, 1, 2 and 3 files (so that every kind of seek
 		// meets every kind of reader state)
 		c20HistoryCase(t, out, pr, dir, "no-files", nil, 12, nil, nil)
@@ -957,6 +969,11 @@ func TestVerifC20(t *testing.T) {
 		c20DrawMeta(r, 1, 6)
 		nf := vfPick(r, []int{0, 1, 1, 2, 2, 2, 2, 3})
 		files := c20GenFiles(r, nf, ts0+r.Range(0, 1000000), 9, 14)
+		if nf > 0 && r.Chance(1, 4) {
+			// stamps after the wall clock from some record on
+			ff := r.Intn(nf)
+			files = c20ToFuture(files, ff, r.Intn(len(files[ff])+1))
+		}
 		c20HistoryCase(t, out, r, dir, "random", files, int(r.Range(6, 32)), nil, nil)
 	}
 	c20CurMeta = c20MetaPolicy{}
